@@ -330,9 +330,10 @@ def _disconnect_all_during_connect(h, f, sid, s):
     """Server.disconnect() without a sid that closed a session between its
     entry into the table and the call of its connect handler (threads, line
     granularity only): the application sees disconnect, then connect."""
-    if not s['connect'] or not s['disconnect']:
+    if not s['disconnect']:
         return None
-    ec, ed = s['connect'][0], s['disconnect'][0]
+    ed = s['disconnect'][0]
+    ec = s['connect'][0] if s['connect'] else {'seq': 1 << 60}
     if ed['arg'] != 'server disconnect' or not (
             ed['seq'] < ec['seq'] or not s['accepted']):
         return None
@@ -344,6 +345,8 @@ def _disconnect_all_during_connect(h, f, sid, s):
                     'after _handle_connect had put it into the table and '
                     'before its connect handler had %s: the application got '
                     '%r' % (a['t_start'], sid,
+                            'run (it never ran, the open request failed)'
+                            if not s['connect'] else
                             'run' if ed['seq'] < ec['seq'] else
                             'rejected it (outcome %r)' % s.get('outcome'),
                             [e['ev'] for e in s['events']][:4]))
@@ -411,7 +414,15 @@ def _session_events(h, f, sid, s, expect_liveness):
         # containment
         for e in s['message']:
             if e.get('fault') == 'raise':
-                if nd and not causes:
+                # (a disconnect that is already explained by one of the
+                # heartbeat findings is not the exception's doing)
+                d0 = s['disconnect'][0] if nd else None
+                explained = d0 is not None and d0['arg'] == \
+                    'transport close' and (
+                        _writer_timeout_tie(f, sid, d0) or
+                        _reader_armed_at_upgrade(f, sid, d0) or
+                        _writer_starved_after_upgrade(f, sid, d0))
+                if nd and not causes and not explained:
                     out.append(V('containment', '%s|message-raise-ended' %
                                  impl, 'message handler exception for %s '
                                  'was followed by a disconnect (%r) with no '
